@@ -37,7 +37,7 @@ func (ex *Exec) call(st *State, x *ast.CallExpr, k func(*State, []Val)) {
 	// builtin?
 	if id, ok := ast.Unparen(x.Fun).(*ast.Ident); ok {
 		if b, ok := fr.info.Uses[id].(*types.Builtin); ok {
-			ex.builtin(st, b.Name(), x, k)
+			ex.invoke(st, &callTarget{kind: "builtin", bname: b.Name(), call: x}, k)
 			return
 		}
 	}
